@@ -186,6 +186,12 @@ fn process_dir(
                 writeln!(&mut stderr(), "Error: {err}").unwrap();
             }
             Ok(entry) => {
+                // walkdir does not always honour -mindepth: it lowers min_depth to
+                // max_depth when the range is empty, and broken symlinks reach us as
+                // walk errors that were turned into entries without passing its filter.
+                if entry.depth() < config.min_depth {
+                    continue;
+                }
                 let mut matcher_io = matchers::MatcherIO::new(deps);
 
                 let new_dir = entry.path().parent().map(|x| x.to_path_buf());
